@@ -210,11 +210,13 @@ inductive Instr where
   | defLocal (i : Nat)     -- DefineLocal: pops
   | closure (c nfree : Nat) -- Closure: constant `c`, `nfree` captured values
   | currClosure
+  | getFree (i : Nat)      -- a captured value of the running closure
+  | setFree (i : Nat)      -- the value stays on the stack
 deriving Repr
 
 def Instr.size : Instr → Nat
   | .const _ | .jump _ | .jif _ | .jifnp _ | .getGlobal _ | .setGlobal _ | .defGlobal _ => 3
-  | .call _ | .getLocal _ | .setLocal _ | .defLocal _ => 2
+  | .call _ | .getLocal _ | .setLocal _ | .defLocal _ | .getFree _ | .setFree _ => 2
   | .closure .. => 4
   | _ => 1
 
